@@ -234,7 +234,8 @@ def main(modname, argv):
         # gate 1: same case again -> same class and digest
         r2 = mod.run_case(sim, case)
         cl2 = [v["class"] for v in (r2.get("violations") or [])]
-        if cls not in cl2 or (digest and r2.get("digest") != digest):
+        # a CPU-limit kill cuts the event log at a non-deterministic point: compare the class only
+        if cls not in cl2 or (digest and r2.get("digest") != digest and "cpu-limit" not in cls):
             print("NON-REPRODUCIBLE class=%s (rerun gave %s, digest %s vs %s)" % (cls, cl2, r2.get("digest"), digest))
             json.dump({"class": cls, "case": case}, open("/tmp/aslsim-nonrepro-%s.json" % chash(cls), "w"))
             exit_code = 2
